@@ -367,8 +367,28 @@ pub fn run_verify(info: &MatInfo, caller: &[(Option<String>, KeySpec)], dir: &Pa
         };
         keys.insert(kid, pk);
     }
+    run_verify_keys(&block, keys, dir, step_name)
+}
+
+/// Call `in_toto_verify` with an explicit key map.
+pub fn run_verify_keys(block: &Metablock, keys: HashMap<KeyId, PublicKey>, dir: &Path, step_name: Option<&str>) -> Option<Result<Metablock, String>> {
     let dir_s = dir.to_str().expect("utf8 dir");
-    Some(in_toto::verifylib::in_toto_verify(&block, keys, dir_s, step_name).map_err(|e| e.to_string()))
+    Some(in_toto::verifylib::in_toto_verify(block, keys, dir_s, step_name).map_err(|e| e.to_string()))
+}
+
+/// The standards-conformant SubjectPublicKeyInfo of a pool key.
+pub fn spki_of_key(k: &KeySpec) -> Vec<u8> {
+    use crate::model::keyid::*;
+    match k {
+        KeySpec::Ed { seed, .. } => spki_ed25519(&ed_public(*seed)),
+        KeySpec::Ec { idx } => spki_p256(&ec_point(*idx)),
+        KeySpec::Rsa { idx, .. } => rsa_spki(*idx),
+    }
+}
+
+/// The same key material declared with a signature scheme the library does not implement.
+pub fn unknown_scheme_key(k: &KeySpec) -> PublicKey {
+    PublicKey::from_spki(&spki_of_key(k), in_toto::crypto::SignatureScheme::Unknown("rsa-pkcs1v15-sha256".into())).expect("spki import")
 }
 
 pub fn own_ids(keys: &[KeySpec]) -> Vec<(Option<String>, KeySpec)> {
